@@ -171,6 +171,22 @@ def _np(a, shape):
     return np.array(np.broadcast_to(np.asarray(a, dtype=float), shape))
 
 
+DEGENERATE = ("near", "two_equal", "two_equal_exact", "all_equal", "all_equal_exact")
+
+
+def _cmp(rec, err, scale, tol, oracle, msg, degenerate, **sig):
+    """rec.close for well-separated spectra (honest error enters the calibration table); for (nearly) repeated
+    eigenvalues / mixed elements - where the closed-form decomposition is ill-conditioned and mostly a listed
+    finding - same test, but the error of the points that do pass is recorded apart."""
+    if not degenerate:
+        return rec.close(err, scale, tol, oracle, msg, **sig)
+    e = float(np.max(np.abs(err))) if np.size(err) else 0.0
+    ok = bool(np.isfinite(e) and e <= tol * scale)
+    if ok and scale > 0:
+        rec.note_max("degenerate_pass_err:" + oracle, e / scale)
+    return rec.require(ok, oracle, f"{msg} err={e:.3e} scale={scale:.3e} tol={tol:.1e}", **sig)
+
+
 def check_split(case, rec):
     dim = int(case["dim"])
     D = 3 if dim == 2 else 6
@@ -217,6 +233,7 @@ def check_split(case, rec):
                 ev = eps[e, p]
                 ne = float(np.linalg.norm(ev))
                 sig = dict(dim=dim, split=split, law=law, cls=clss[e, p], mixed=mixed)
+                dg = clss[e, p] in DEGENERATE or (dim == 3 and mixed)
                 if split in ("Miehe", "Zhang", "He"):
                     rec.label(f"cls:{clss[e, p]}")
                 where = f"{split}/{law} dim={dim} e={e} p={p} cls={clss[e, p]} mixed={mixed} eps={ev.tolist()}"
@@ -240,20 +257,20 @@ def check_split(case, rec):
                     continue
                 # 3. positive part vs eigh oracle and the split's formula
                 o = orc.evaluate(ev, sps[e, p])
-                if not rec.close(pP[e, p] - o["psiP"], kappa * nC * ne**2, TOL_POS, "psiP",
-                                 f"psi+ {pP[e, p]!r} vs oracle {o['psiP']!r} at " + where, stage="positive", **sig):
+                if not _cmp(rec, pP[e, p] - o["psiP"], kappa * nC * ne**2, TOL_POS, "psiP",
+                            f"psi+ {pP[e, p]!r} vs oracle {o['psiP']!r} at " + where, dg, stage="positive", **sig):
                     continue
                 if o["sigP"] is not None:
-                    if not rec.close(sP[e, p] - o["sigP"], kappa * nC * ne, TOL_POS, "sigP",
-                                     f"sigma+ {sP[e, p].tolist()} vs oracle {o['sigP'].tolist()} at " + where,
-                                     stage="positive", **sig):
+                    if not _cmp(rec, sP[e, p] - o["sigP"], kappa * nC * ne, TOL_POS, "sigP",
+                                f"sigma+ {sP[e, p].tolist()} vs oracle {o['sigP'].tolist()} at " + where, dg,
+                                stage="positive", **sig):
                         continue
                 # 4. the projector itself (secant stiffness), only where <.>+ is differentiable
                 if o["cP"] is not None:
                     rec.label("projector_asserted")
-                    rec.close(cP[e, p] - o["cP"], kappa * nC, TOL_POS, "cP",
-                              f"cP differs from the stiffness built with d<T>+/dT at " + where,
-                              stage="positive", **sig)
+                    _cmp(rec, cP[e, p] - o["cP"], kappa * nC, TOL_POS, "cP",
+                         "cP differs from the stiffness built with d<T>+/dT at " + where, dg,
+                         stage="positive", **sig)
                 else:
                     rec.label("projector_skipped_kink")
 
@@ -347,9 +364,12 @@ def check_history(case, rec):
         psiP = np.array(simu.Result("psiP", nodeValues=False), float).ravel()
         H = np.array(getattr(simu, hist_attr), float)
         where = f"step {k} amp={a:+.3f} {split}/{regu}/{solver} mesh={types} dim={dim}"
+        # drive0: the driving energy that entered the first damage solve of this step (psi+ of the previous
+        # saved state, or the history field) is identically zero
+        drive0 = prev is None or float(np.max(np.abs(prev[1]))) == 0.0
         if not rec.require(np.isfinite(d).all() and np.isfinite(psiP).all(), "history_finite",
-                           "non-finite damage / psiP at " + where, **sig):
-            return  # listed class (3D closed-form decomposition): the rest of the history is poisoned
+                           "non-finite damage / psiP at " + where, drive0=drive0, **sig):
+            return  # listed class: the rest of the history is poisoned
         loaded = loaded or a != 0.0
         if not loaded:
             rec.require(np.max(np.abs(d)) <= 1e-14, "noload_damage_zero",
